@@ -1,0 +1,8 @@
+//go:build verif
+
+package smgp30
+
+// VerifGenAuthenticatorClient exposes genAuthenticatorClient to the runtime monitors.
+func VerifGenAuthenticatorClient(clientID, secret string, timestamp uint32) ([]byte, error) {
+	return genAuthenticatorClient(clientID, secret, timestamp)
+}
